@@ -27,6 +27,8 @@ func propC05() Property {
 			{ID: "C05-R7", Desc: "nothing queued for sending is dropped: FIFO queue shape (= C02-R4)", Min: 5, Run: c02R4},
 			{ID: "C05-R8", Desc: "frames handed to the session do not alias the read buffer (= C12-R2)", Min: 5, Run: c12R2},
 			{ID: "C05-R9", Desc: "the write loop drains the outbound channel until it is closed", Min: 1, Run: c05R9},
+			{ID: "C05-R13", Desc: "a received ResetSeqNumFlag resets only when it is Y and no reset was sent (= C07-R3)", Min: 4, Run: c07R3},
+			{ID: "C05-R12", Desc: "a silent link is detected: the peer timer is re-armed after the TestRequest (= C20-R2/R3)", Min: 3, Run: func(c *Ctx) { c20R2(c); c20R3(c) }},
 			{ID: "C05-R11", Desc: "a replayed message carries its stored body bytes and number (= C03-R4)", Min: 3, Run: c03R4},
 			{ID: "C05-R10", Desc: "numbering, persisting and queueing are one critical section (= C02-R1)", Min: 8, Run: c02R1},
 		},
